@@ -288,6 +288,36 @@ class Ctx:
         p.wall = time.time() - t
         return p
 
+    # ---------------------------------------------------------------- TLAPS
+    TLAPS_STDLIB = "/opt/veriftools/tlapm/lib/tlapm/stdlib/TLAPS.tla"
+
+    def tlaps_module(self):
+        """{name: text} of the TLAPS standard module, so that TLC can parse modules that carry proofs."""
+        return {"TLAPS.tla": open(self.TLAPS_STDLIB).read()} if os.path.exists(self.TLAPS_STDLIB) else {}
+
+    def tlaps(self, stage, module, timeout=900):
+        """Runs the TLA+ proof system on spec/<module>.tla in a scratch directory (no fingerprint cache) and
+        returns (proved, obligations, tail of the output).  A proof that does not go through is reported by
+        the caller as missing strengthening, never as a verdict about the code: proofs are about the design."""
+        rd = os.path.join(self.dir, "tlaps-" + stage)
+        shutil.rmtree(rd, ignore_errors=True)
+        os.makedirs(rd)
+        moddir = os.path.dirname(os.path.join(SPEC, module))
+        for f in os.listdir(moddir):
+            if f.endswith(".tla"):
+                shutil.copyfile(os.path.join(moddir, f), os.path.join(rd, f))
+        name = os.path.basename(module) + ".tla"
+        t = time.time()
+        try:
+            p = subprocess.run(["tlapm", "--threads", "16", name], cwd=rd, stdout=subprocess.PIPE, stderr=subprocess.STDOUT,
+                               text=True, timeout=timeout)
+            out = p.stdout or ""
+        except (subprocess.TimeoutExpired, FileNotFoundError) as e:
+            out = "tlapm: %s" % e
+        m = re.search(r"All (\d+) obligations? proved", out)
+        log("[tlaps] %-28s %6.1fs %s" % (stage, time.time() - t, m.group(0) if m else "NOT PROVED"))
+        return bool(m), int(m.group(1)) if m else 0, out[-1500:]
+
     # ---------------------------------------------------------------- TLC
     CHUNK_BYTES = 32 * 1024 * 1024
 
